@@ -815,16 +815,22 @@ example : fnOf ([0,0,0,0,1/2,1,1,1,1] : List ℚ) 4 ≤ 1/2 ∧ (1/2 : ℚ) < fn
     row, run sequentially.  For every degree, knot function, list of rows, parameter, count `r ≥ 0`, multiplicity
     argument `s` and span argument `k` with `p ≤ k` and `r + s ≤ p` (no negative index) it returns, slot by slot and
     point by point, what `knotInsertionRows` returns.  `hR` (rectangular rows: on ragged rows the code raises
-    `IndexError`) and `hkR` (no read past the last row) are the guards of the code / of the driver op; they are not used. -/
+    `IndexError`), `hw` (rows of at least one point: on rows of width 0 the helper raises `IndexError` at `temp[i][0]`),
+    `hkR` (no read past the last row) and – as for the point branch, `knot_insertion_as_coded_eq_model` – `hm` (sorted
+    knots) with `hspan` (the span argument is not empty: no alpha denominator vanishes, else `ZeroDivisionError`; the
+    ops `rowsinsa51` / `rowsins` test exactly the denominators the loops compute, `Drv.a51DivByZero`) are the guards of
+    the code / of the driver op; they are not used by the proof. -/
 theorem knot_insertion_rows_as_coded_eq_model (p : ℕ) (U : ℕ → K) (R : List (List (List K))) (u : K) (r s k : ℕ)
-    (hR : Rows.RectW (R.headD []).length R) (hpk : p ≤ k) (hkR : k < R.length) (hrs : r + s ≤ p) :
+    (hR : Rows.RectW (R.headD []).length R) (hw : 0 < (R.headD []).length) (hpk : p ≤ k) (hkR : k < R.length)
+    (hrs : r + s ≤ p) (hm : Monotone U) (hspan : U k < U (k + 1)) :
     knotInsertionRowsA51 p U R u r s k = knotInsertionRows p U R u r s k :=
   knotInsertionRowsA51_eq_model p U R u r s k hpk hrs
 
 /-- **Every iso-curve of the loops on rows is the loops on that iso-curve**: column `c` of what the rows branch as
     coded returns is what the point branch as coded returns for column `c` of the input (same guard). -/
 theorem knot_insertion_rows_as_coded_isocurve (c p : ℕ) (U : ℕ → K) (R : List (List (List K))) (u : K) (r s k : ℕ)
-    (hR : Rows.RectW (R.headD []).length R) (hpk : p ≤ k) (hrs : r + s ≤ p) :
+    (hR : Rows.RectW (R.headD []).length R) (hw : 0 < (R.headD []).length) (hpk : p ≤ k) (hrs : r + s ≤ p)
+    (hm : Monotone U) (hspan : U k < U (k + 1)) :
     isoCol c (knotInsertionRowsA51 p U R u r s k) = knotInsertionA51 p U (isoCol c R) u r s k := by
   rw [knotInsertionRowsA51_eq_model p U R u r s k hpk hrs, knotInsertionA51_eq_model p U _ u r s k hpk hrs]
   exact Rows.isoCol_knotInsertionRows c p U R u r s k
